@@ -41,6 +41,11 @@ CFGS = {
     # HTTP-TS subscribers next to the others (stat listing, notifications, kick, group liveness)
     "L3": dict(RtmpPubs=["p1", "p2"], RtspPubs=[], CustPubs=["k1"], PsPubs=[], RtmpSubs=["s1"], FlvSubs=[], TsSubs=["h1", "h2"],
                PullRetry=0, PullAuto=-1, PullEnabled=False),
+    # notifications through lal's own HttpNotify worker (bounded queue, JSON over HTTP) to a stub web hook
+    "L4": dict(RtmpPubs=["p1", "p2"], RtspPubs=["q1"], CustPubs=[], PsPubs=[], RtmpSubs=["s1"], FlvSubs=["f1"], HttpNotify=True,
+               PullRetry=0, PullAuto=-1, PullEnabled=False),
+    "P5": dict(RtmpPubs=["p1"], RtspPubs=[], CustPubs=[], PsPubs=[], RtmpSubs=["s1"], FlvSubs=[], HttpNotify=True,
+               PullRetry=1, PullAuto=-1, PullEnabled=True, Hook=False),
     "L2": dict(RtmpPubs=["p1"], RtspPubs=[], CustPubs=["k1"], PsPubs=["g1"], RtmpSubs=[], FlvSubs=["f1"],
                PullRetry=0, PullAuto=-1, PullEnabled=False),
 }
@@ -93,7 +98,7 @@ def drv_cfg(cid):
             "rtmpSubs": c["RtmpSubs"], "flvSubs": c["FlvSubs"], "pullRetry": c["PullRetry"],
             "pullAutoMs": (-1 if c["PullAuto"] < 0 else c["PullAuto"] * 700), "hook": c.get("Hook", True), "outputs": c.get("Outputs", False), "leak": 0,
             "pushTargets": c.get("Push", []), "paramLen": c.get("ParamLen", 0), "wirePubs": c.get("WirePubs", []),
-            "tsSubs": c.get("TsSubs", [])}
+            "tsSubs": c.get("TsSubs", []), "httpNotify": c.get("HttpNotify", False)}
 
 
 def signature(r):
